@@ -2,3 +2,4 @@ import Mpd.Basic
 import Mpd.Tag
 import Mpd.Command
 import Mpd.AFrame
+import Mpd.Filter
